@@ -103,7 +103,7 @@ def regions (a : Ann) (v : Val) : List String :=
   (if v.hasNT then ["namedtuple"] else []) ++
   (if !v.plain && !v.hasNT then ["iterator"] else []) ++
   (if a.hasEmptyTuple then ["emptyFixedTuple"] else []) ++
-  (if a.hasTypeOfUnion then ["typeOfUnion"] else [])
+  (if a.hasTypeOfNonClass then ["typeOfNonClass"] else [])
 
 /-- case: {"env": …, "ann": term, "val": term} -/
 def handle (c : Json) : Json :=
